@@ -14,16 +14,18 @@ RULE = ("Token streams obtained by walking (etree and dom walkers - the dom buil
         "Hypothesis markup soup enriched with all five ASCII whitespace characters, NBSP / EM SPACE / U+2028 (must survive), character references to whitespace, nested preserve "
         "elements (pre > b > text, textarea, script, style, xmp...). Oracle (vf model): between two non-text tokens the concatenated text outside pre/textarea/raw-text elements "
         "must equal the concatenated input with every maximal run of [\\t\\n\\f\\r ] replaced by one space; inside those elements it must be identical; every non-text token "
-        "is passed through unchanged and in order; applying the filter twice equals applying it once. Text inside noscript, title, plaintext, listing and foreign namesakes of "
+        "is passed through unchanged and in order; applying the filter twice equals applying it once; the filter applied to the live walker gives the same tokens as "
+        "applied to a copy of the walker's tokens, and a second walk of the tree is unchanged by it. Text inside title, plaintext, listing and foreign namesakes of "
         "style/script/title is not judged (the statement does not decide them). Non-trivial = some judged text group contains a run of >= 2 whitespace characters or a "
         "non-space whitespace character; distinct = distinct (group texts) signature.")
 ASSUMPTIONS = ["'text' = a maximal sequence of Characters/SpaceCharacters tokens between two other tokens",
-               "raw-text elements = script, style, xmp, iframe, noembed, noframes (HTML namespace); noscript/title/plaintext/listing/foreign namesakes are not judged"]
+               "raw-text elements = script, style, xmp, iframe, noembed, noframes, noscript (HTML namespace; the set the property's anchor names, constants.rcdataElements of the pinned tree); title/plaintext/listing/foreign namesakes are not judged"]
 SHRINK = {"text": "str"}
 
 HTML_NS = "http://www.w3.org/1999/xhtml"
-PRESERVE = frozenset(["pre", "textarea", "script", "style", "xmp", "iframe", "noembed", "noframes"])
-DONTCARE = frozenset(["noscript", "title", "plaintext", "listing"])
+# "raw-text elements" is read as the property's anchor defines it: constants.rcdataElements of the pinned tree (which includes noscript)
+PRESERVE = frozenset(["pre", "textarea", "script", "style", "xmp", "iframe", "noembed", "noframes", "noscript"])
+DONTCARE = frozenset(["title", "plaintext", "listing"])
 _RUN = re.compile("[\t\n\x0c\r ]+")
 TEXT = ("Characters", "SpaceCharacters")
 
@@ -123,6 +125,19 @@ def check_case(case):
         return Verdict("excluded", finding="walker error token (C11 known finding)")
     v = check_stream(toks)
     v.classes = tuple(v.classes) + ("walker:" + walker,)
+    if v.status in ("pass", "known"):
+        # the way the filter is really used: directly on the live walker (the filter rewrites tokens in place, so any token
+        # object a walker shares between positions or walks would carry the rewrite elsewhere)
+        from html5lib.filters.whitespace import Filter
+        want = list(Filter(_snapshot(toks)))
+        live = list(Filter(h5.walk(r, walker)))
+        again = list(h5.walk(r, walker))
+        if live != want:
+            k = next((i for i, (a, b) in enumerate(zip(live, want)) if a != b), min(len(live), len(want)))
+            return Verdict("fail", "filter on the live %s walker differs from the filter on a copy of its tokens at token %d: %s vs %s; input %s"
+                           % (walker, k, short(live[k:k + 1], 100), short(want[k:k + 1], 100), short(text, 160)), "live-walker-differs", nontrivial=True)
+        if again != toks:
+            return Verdict("fail", "a second walk of the same tree differs after filtering the first; input %s" % short(text, 160), "walk-poisoned", nontrivial=True)
     return v
 
 
